@@ -299,9 +299,23 @@ pub fn exec_c05(plan: &C05Plan, st: &mut Stats) -> Option<Violation> {
             let before = state_digest(&m.state);
             m.feed(v);
             let mut failures = 0u64;
+            // with a sampled scenario (`only`, large victims) the chain jumps from one
+            // sampled byte position to the next instead of advancing byte by byte
+            let targets: Vec<usize> = {
+                let mut t = plan.only.clone();
+                t.sort();
+                t.dedup();
+                t
+            };
+            let mut pos = 0usize; // bytes of V the failed calls have pulled in so far
             loop {
                 // the 2nd read from now fails: every call gets exactly one byte further
-                m.arm(2, *kind);
+                let gap: u64 = if targets.is_empty() {
+                    2
+                } else {
+                    targets.iter().find(|t| **t > pos).map(|t| (*t - pos + 1) as u64).unwrap_or(1 << 40)
+                };
+                m.arm(gap, *kind);
                 let o = call(&mut m, plan);
                 st.inc("evaluations");
                 st.add("steps", 1);
@@ -321,18 +335,22 @@ pub fn exec_c05(plan: &C05Plan, st: &mut Stats) -> Option<Violation> {
                     }
                     Outcome::Err(e) => {
                         failures += 1;
+                        pos += (gap - 1) as usize;
                         st.inc(&format!("fault.src_{kind:?}.fired"));
-                        let elem = marks.as_ref().map(|mk| mk.classify_byte(failures as usize)).unwrap_or("?");
+                        if pos >= 4096 {
+                            st.inc("probe.io_error_after_4096_consumed_bytes");
+                        }
+                        let elem = marks.as_ref().map(|mk| mk.classify_byte(pos)).unwrap_or("?");
                         st.inc(&format!("probe.io_error_inside_{elem}"));
                         if elem != "header" {
-                            st.distinct.insert(scen ^ fnv1a(format!("io/{kind:?}/{failures}").as_bytes()));
+                            st.distinct.insert(scen ^ fnv1a(format!("io/{kind:?}/{pos}").as_bytes()));
                         }
                         st.hs(e);
                         if !e.starts_with("Io(") {
                             // the decoder turned the I/O failure into something else: still a failure
                             st.inc("io_error_reported_as_other_error");
                         }
-                        if let Some(x) = check_unchanged(&m, (before, &before_obs), &format!("I/O fault {kind:?} at source byte {failures} ({elem})")) {
+                        if let Some(x) = check_unchanged(&m, (before, &before_obs), &format!("I/O fault {kind:?} at source byte {pos} ({elem})")) {
                             return Some(x);
                         }
                         if failures > twin.reads_v + 8 {
@@ -710,13 +728,25 @@ pub fn gen_c05(rng: &mut Rng, tier: Tier) -> C05Plan {
     let sorenson = opts & 1 == 1;
     let mut cfg = GenCfg::for_opts(rng, opts);
     let _ = sorenson;
-    let limit = if tier == Tier::Quick { 400 } else { 1200 };
-    if cfg.flavour == 3 {
+    // one scenario in 60 has a LARGE victim (dense pictures of several kilobytes, so that
+    // a late failure comes after thousands of consumed bytes); its split points and
+    // poisons are sampled (`only`), the I/O chain still visits every byte
+    let large = rng.chance(1, 60);
+    let limit = if large { 1 << 20 } else if tier == Tier::Quick { 400 } else { 1200 };
+    if large {
+        cfg.density = 3;
+        cfg.mb_weights = [1, 2, 1, 4, 4, 1, 0];
+    }
+    if cfg.flavour == 3 && !large {
         cfg.density = cfg.density.min(1);
         cfg.mb_weights[0] += 20;
     }
     let class = if tier == Tier::Quick { *rng.pick(&[0u8, 0, 3]) } else { *rng.pick(&[0u8, 1, 3]) };
     let (mut w, mut h) = gen_size(rng, class);
+    if large {
+        w = 80 + 16 * rng.below(3) as u16;
+        h = 80 + 16 * rng.below(3) as u16;
+    }
     if w as u32 * h as u32 > 96 * 96 {
         // the enumeration is quadratic in the victim's length: keep victims small
         w = w.min(48);
@@ -768,6 +798,19 @@ pub fn gen_c05(rng: &mut Rng, tier: Tier) -> C05Plan {
         cont.push(next(rng, &cfg, &mut has_ref, false));
     }
     let poisons = poison_variants(rng, victim.spec.as_ref().unwrap(), had_ref_before_victim);
+    let only: Vec<usize> = if large {
+            // all poisons (indices below 24) and two dozen split points, most of them late
+            let n = victim.bytes.len().max(1);
+            let mut v: Vec<usize> = (0..24).collect();
+            for _ in 0..16 {
+                v.push(n - 1 - rng.usize(n.min(64)));
+                v.push(rng.usize(n));
+            }
+            v.push(n.min(4097));
+            v
+        } else {
+            vec![]
+        };
     C05Plan {
         note: format!("opts {opts}, flavour {}, {w}x{h}, |H|={}, |V|={} bytes, |C|={}", cfg.flavour, prefix.len(), victim.bytes.len(), cont.len()),
         opts,
@@ -779,7 +822,7 @@ pub fn gen_c05(rng: &mut Rng, tier: Tier) -> C05Plan {
         do_split: true,
         do_poison: true,
         do_eintr: true,
-        only: vec![],
+        only,
         io_kinds: vec![*rng.pick(&SrcFault::HARD)],
         shared_reader: rng.chance(1, 3),
         max_chunk: *rng.pick(&[0usize, 0, 0, 1, 2, 3, 7]),
@@ -792,7 +835,7 @@ impl Property for C05 {
     type Plan = C05Plan;
     const ID: &'static str = "C05";
     const LEVEL: &'static str = "fault_enumeration";
-    const RULE: &'static str = "scenarios (history H of 0-4 accepted pictures, a valid victim picture V, a continuation C of 1-3 valid pictures; all option sets, Sorenson v0/v1/other and standard PTYPE/PLUSPTYPE) are seeded; for each scenario the faults are ENUMERATED: a hard I/O error at every source-read index of V (chained on one reader, each call one byte further, then a clean retry), EINTR on every other read, every split point k in 0..len(V) across two deliveries, one semantic poison per depth (header / macroblock header / block data / prediction) and 12 single bit flips. evaluations = decode calls made under an injected fault or as its retry. A case is non-trivial if the failing call got past the picture header; distinct by (victim bytes, history shape, fault kind, fault position).";
+    const RULE: &'static str = "scenarios (history H of 0-4 accepted pictures, a valid victim picture V, a continuation C of 1-3 valid pictures; one scenario in 60 has a LARGE victim of several kilobytes whose fault positions are sampled instead of enumerated, most of them late; all option sets, Sorenson v0/v1/other and standard PTYPE/PLUSPTYPE) are seeded; for each scenario the faults are ENUMERATED: a hard I/O error at every source-read index of V (chained on one reader, each call one byte further, then a clean retry), EINTR on every other read, every split point k in 0..len(V) across two deliveries, one semantic poison per depth (header / macroblock header / block data / prediction) and 12 single bit flips. evaluations = decode calls made under an injected fault or as its retry. A case is non-trivial if the failing call got past the picture header; distinct by (victim bytes, history shape, fault kind, fault position).";
     fn runs(tier: Tier) -> u64 {
         match tier {
             Tier::Quick => 6_000,
@@ -857,6 +900,6 @@ impl Property for C05 {
         ]
     }
     fn probe_names() -> Vec<&'static str> {
-        vec!["io_error_inside_header", "io_error_inside_mb_header", "io_error_inside_block_data", "split_failed_inside_header", "split_failed_inside_block_data", "failure_on_a_reused_reader", "failure_chain_completed", "eintr_burst_invisible"]
+        vec!["io_error_inside_header", "io_error_inside_mb_header", "io_error_inside_block_data", "split_failed_inside_header", "split_failed_inside_block_data", "failure_on_a_reused_reader", "failure_chain_completed", "eintr_burst_invisible", "io_error_after_4096_consumed_bytes"]
     }
 }
